@@ -32,5 +32,5 @@ MANIFEST = {
     'category': 'other',
     'technique': 'formal execution of the real operator classes over abstract vectors/linear maps (block, subspace, Kronecker dispatch: identities for all operands); run-time comparison with dense definitions for the array-level routines (bounded)',
     'text': 'For all vectors and all (opaque) block operators: BlockOperator with any layout of real/None/NullOperator blocks up to 3x3 acts as the block matrix, its transpose and adjoint as the transposed/adjoint block matrix, BlockDiagonalOperator as the block-diagonal matrix, SubspaceOperator as sum_j P_j B_j P_j^T (transpose with B_j^T, involutive); KroneckerOperator and its .T/.H pass the factors in order to the dense routine (all-dense or non-square factors) or the linear-operator routine, dense factors need no .H. Bounded on the compiled code: Kronecker products of 1-4 square/rectangular dense/sparse/LinearOperator factors applied to vectors, (n,1) and (n,k) arrays incl. transposes and adjoints, apply_tprod with None placeholders and trailing axes, apply_kronecker, diagonal/identity/null operators, make_solver (dense/sparse, general/symmetric/SPD), make_kronecker_solver, fastdiag_solver for 1D-3D Kronecker-sum Laplacians, CSRRowSlice/CSRRowSubset all equal their dense definitions.',
-    'note': 'array-level routines and solver factories are bounded only; DiagonalOperator rejects length-1 diagonals by an explicit assertion (outside the domain).',
+    'note': 'array-level routines and solver factories are bounded only; DiagonalOperator rejects length-1 diagonals by an explicit assertion (outside the domain). Bounded tier also: modek_tprod on every mode, apply_tprod on canonical/Tucker/sum/outer-product tensors, well-conditioned symmetric indefinite (saddle-point) matrices, column-major inputs; operators and factories leave their arguments unchanged.',
 }
